@@ -27,7 +27,7 @@ def main():
     try:
         for p in props:
             t0 = time.time()
-            c = sh("cd %s && bin/check %s --tier quick" % (VERIF, p))
+            c = sh("cd %s && VERIF_EVIDENCE_DIR=%s/out/evidence_seeded bin/check %s --tier quick" % (VERIF, VERIF, p))
             viol = [l for l in c.stdout.splitlines() if l.startswith("VIOLATION") or l.startswith("  what:") or l.startswith("TOOL-ERROR")]
             results[p] = {"exit": c.returncode, "wall": round(time.time() - t0, 1), "lines": viol[:6]}
             print("%s -> exit %d (%.0fs)" % (p, c.returncode, time.time() - t0))
